@@ -7,6 +7,7 @@ pub mod rng;
 pub mod engines;
 pub mod gen;
 pub mod lsp;
+pub mod dap;
 pub mod refsem;
 
 use ctx::{Args, Shard};
